@@ -115,6 +115,7 @@ fn main() {
             let seed: u64 = args[4].parse().unwrap();
             let shard: usize = args[5].parse().unwrap();
             let env = mk_env(tier, seed, shard, false, Some(&args[6]));
+            engine::start_inproc_watchdog();
             dispatch!(prop, do_shard, &env, &args[6]);
             ws::rm_rf(&env.scratch);
         }
@@ -130,6 +131,10 @@ fn main() {
                     println!("replay: property {} VIOLATED: allocation out of proportion to the input", rf.property);
                     1
                 }
+                (Some(c), _) if c == engine::EXIT_HANG => {
+                    println!("replay: property {} VIOLATED: did not finish within 20 s in-process", rf.property);
+                    1
+                }
                 (Some(c), _) => c,
                 (None, sig) => {
                     println!("replay: property {} VIOLATED: process died with signal {:?}", rf.property, sig);
@@ -142,6 +147,7 @@ fn main() {
             let txt = std::fs::read_to_string(&args[2]).expect("read replay file");
             let rf: ReplayFile = serde_json::from_str(&txt).expect("parse replay file");
             let env = mk_env(Tier::Quick, 0, 0, true, None);
+            engine::start_inproc_watchdog();
             let prop = rf.property.clone();
             let code = dispatch!(prop.as_str(), do_replay, &env, &rf);
             ws::rm_rf(&env.scratch);
